@@ -18,16 +18,17 @@ ALLOCATORS = ("zeros", "ones", "empty", "eye", "identity", "kron", "array", "asa
 
 
 class _NumpyProxy(types.ModuleType):
-    def __init__(self, real, seam):
+    def __init__(self, real, seam, names=ALLOCATORS):
         super().__init__(real.__name__)
         object.__setattr__(self, "_real", real)
         object.__setattr__(self, "_seam", seam)
         object.__setattr__(self, "_wrapped", {})
+        object.__setattr__(self, "_names", tuple(names))
 
     def __getattr__(self, name):
         real = object.__getattribute__(self, "_real")
         val = getattr(real, name)
-        if name in ALLOCATORS and callable(val):
+        if name in object.__getattribute__(self, "_names") and callable(val):
             cache = object.__getattribute__(self, "_wrapped")
             w = cache.get(name)
             if w is None:
@@ -50,8 +51,9 @@ class _NumpyProxy(types.ModuleType):
 
 
 class SimAlloc:
-    def __init__(self, prefix="orquestra.quantum"):
+    def __init__(self, prefix="orquestra.quantum", extra=()):
         self.prefix = prefix
+        self.names = tuple(ALLOCATORS) + tuple(extra)   # extra: further numpy entry points that return fresh arrays
         self._patched = []
         self.armed_at = None
         self.count = 0
@@ -61,7 +63,7 @@ class SimAlloc:
     def install(self):
         import numpy as real
 
-        proxy = _NumpyProxy(real, self)
+        proxy = _NumpyProxy(real, self, self.names)
         for name, mod in list(sys.modules.items()):
             if mod is None or not name.startswith(self.prefix):
                 continue
